@@ -1632,6 +1632,28 @@ fn run_boundary(s: &mut Session, rng: &mut Rng) {
     let c1 = compat_id(rng);
     let ents: Vec<MapEntry> = (0..3).map(|_| MapEntry { delta: 0, format: 3, ignored: false }).collect();
     let ift = ift_format2(&c1, 0, &ents);
+    // widening a gvar whose OLD data is smaller than the growth of the offset array
+    // (many glyphs, nearly no data: the typical initial IFT font)
+    for n in [3usize, 40, 300] {
+        let mut gl: Vec<Vec<u8>> = (0..n).map(|_| vec![]).collect();
+        gl[0] = rng.bytes(4);
+        let glyphs: Vec<Vec<u8>> = (0..n).map(|_| rng.bytes(2)).collect();
+        let gv = GvarSpec { long: false, axis: 1, tuples: rng.bytes(2), glyphs: gl, swapped: false };
+        let f = font_from_glyphs(rng, glyphs, false, Some(&gv), ift.clone(), None);
+        let font = build_font(&f.tables);
+        let infos = infos_of(&font);
+        let Some(info) = infos.first() else { continue };
+        let patch = mk_patch(GkSpec { wide: false, tables: vec![GVAR], gids: vec![1], data: vec![vec![rng.bytes(0x20000)]] }, &c1);
+        let pairs = vec![(info, &patch)];
+        let input = || format!("boundary#gvar-widen-sparse n={n}: short gvar with {n} glyphs and 4 bytes of data, patch gid1 := 0x20000 bytes");
+        match apply_seq(s, &font, &[&pairs[..]], &input) {
+            Ok(out) => {
+                s.count("boundary:gvar-sparse-widened");
+                if let Some(o) = get(&out, GVAR) { gvar_oracles(s, &gv, o, &pairs, &input); }
+            }
+            Err(e) => s.oracle("boundary:gvar-sparse-widening-applies", false, input, || format!("{e:?}")),
+        }
+    }
     // fixed demonstration of the known finding C18-gvar-all-glyph-data-empty:
     // A empties the only glyph that has gvar data, B adds data for another glyph
     for long in [false, true] {
